@@ -433,6 +433,23 @@ func c11Property(t *rapid.T) {
 			vk.Violation(t, c, "C11/field/value-differs/"+name+"/"+cs.mode, "tag %d: %q want %q in %s", f.Tag, got, f.Value, vk.Show(raw))
 		}
 	}
+	// ... and exposes nothing else: every tag a section holds is a tag of the wire (whatever was
+	// parsed into the object before has gone)
+	onWire := map[int]bool{}
+	for _, f := range scanned {
+		onWire[f.Tag] = true
+	}
+	for _, sec := range []struct {
+		fm   *quickfix.FieldMap
+		name string
+	}{{&m.Header.FieldMap, "header"}, {&m.Body.FieldMap, "body"}, {&m.Trailer.FieldMap, "trailer"}} {
+		for _, tag := range sec.fm.Tags() {
+			if !onWire[int(tag)] {
+				v, _ := sec.fm.GetBytes(tag)
+				vk.Violation(t, c, "C11/field/not-on-the-wire/"+sec.name+"/"+cs.mode, "the %s holds tag %d (%q), which the message does not contain: %s", sec.name, int(tag), v, vk.Show(raw))
+			}
+		}
+	}
 	if nontrivial {
 		c.NonTrivial(stats.Hash(raw))
 		c.SampleClass("wellformed/"+cs.mode+xmlClass(cs), vk.Show(raw))
